@@ -15,7 +15,7 @@ RULE = ("suite pdu: every request class with get_response_pdu_size, EVERY quanti
         "ServerDecoder, executed on a real slave context and the response encoded.  suite recv: 5 framers x request "
         "classes x quantities around boundaries x {normal, exception} replies: the real ModbusTransactionManager "
         "runs against a scripted byte-stream transport holding the frame that the server-side framer built; "
-        "observed = the sizes passed to recv.  non-trivial = the class predicts and the quantity is legal; "
+        "observed = the sizes passed to recv; before the cases of a framing ANOTHER client object of the process has had a request to the same unit id go unanswered (its list of silent units must stay its own).  non-trivial = the class predicts and the quantity is legal; "
         "distinct = distinct Coq case terms.  pdu window cases: blocks with base 1, 4, 40 and FC1/2/3/4/23 windows "
         "inside, touching and past the block end.  suite tcp: the same request set through the real ModbusTcpClient "
         "(select + socket.recv) over a socketpair, unit ids 5 and 200; diagnostic classes are enumerated by "
@@ -393,12 +393,28 @@ def recv_requests(r, tier):
     return out
 
 
+def silent_unit_on_another_client(fname, unit=5):
+    """ANOTHER client object of the same process whose request to the same unit id goes unanswered: that client's
+    bookkeeping (its list of units that did not respond, which switches `_recv` to one read of the full predicted
+    length) belongs to it alone and must not change how the fresh clients of the cases read their replies"""
+    cli = scripted_client(fname)
+    _, req = build(("QReadHolding", 1), 0, 0)
+    req.unit_id = unit
+    cli.reply = b""
+    try:
+        cli.execute(req)
+    except Exception:  # noqa: BLE001 — only the side effect on process-wide state is of interest
+        pass
+    return list(getattr(cli.transaction, "_no_response_devices", []))
+
+
 def suite_recv(tier):
     r = common.rng("C14.recv")
     ctx = mk_context()
     reqs = recv_requests(r, tier)
     cases = []
     for fname in FRAMINGS:
+        silent_unit_on_another_client(fname)
         for q, label, addr, fill in reqs:
             cases.append(recv_case(fname, q, ctx, label, addr, fill))
     return Suite("recv", IMPORTS, "chk_recv", cases, shard=300)
